@@ -1078,6 +1078,14 @@ pub fn pad_tokens(ch: &mut Choices, ag: &mut AG) {
 /// Main entry: pick a stratum, generate, and (unless allowed) remove derivation cycles.
 pub fn gen_grammar(ch: &mut Choices, o: &GenOpts) -> AG {
     let mut ag = match ch.weighted(&o.strata) {
+        0 if o.pad_tokens && ch.chance(1, 30) => {
+            // a larger grammar: up to 14 rules over up to 8 tokens (the flag is shared with the
+            // many-token stratum: the properties that can afford wide token sets can afford these)
+            let big = GenOpts { max_rules: 14, max_tokens: 8, max_prods: 3, ..o.clone() };
+            let mut ag = gen_rand(ch, &big);
+            ag.stratum.push_str("+large");
+            ag
+        }
         0 => gen_rand(ch, o),
         1 => gen_expr(ch, o),
         2 => gen_lr1(ch, o),
